@@ -56,8 +56,12 @@ Commute == Done => DLon(CosDLat(F)) = CosDLat(DLon(F))
 (* curl grad = 0 in terms of the code's operators: d/dlon (cos d/dlat f) - sec d/dlat cos^2 ( d/dlon f / cos^2 ... )
    is stated through the Jacobian: Jac(f, f) = 0 *)
 CurlGradZero == Done => Jac(F, F) = PZero
+(* Gauss / Stokes: the Laplacian and the longitude derivative of any field have zero global mean; harmonics
+   of different degree are orthogonal (the mean of the field is its constant part) *)
+ZeroMeans == Done => Mean(Lap(F)) = Zero /\ Mean(DLon(F)) = Zero /\ Mean(SecDLatCos2(F)) = Zero
 
 Export == Done => PrintT(<<"CASE", ToJson([f |-> PJson(F), a |-> cfg.a, degree |-> Degrees[cfg.f],
     dlon |-> PJson(res.dlon), cosdlat |-> PJson(res.cosdlat), secdlatcos2 |-> PJson(res.secdlatcos2),
-    laplacian |-> PJson(res.laplacian), gradu |-> PJson(res.gradu), gradv |-> PJson(res.gradv)])>>)
+    laplacian |-> PJson(res.laplacian), gradu |-> PJson(res.gradu), gradv |-> PJson(res.gradv),
+    mean |-> Mean(F), mean_square |-> Mean(PMul(F, F))])>>)
 =============================================================================
